@@ -1,5 +1,82 @@
-(* cmd_frame.ml — driver commands (filled in by the corresponding property's machinery) *)
+(* cmd_frame.ml — C24 driver commands (parsing and printing only; every decision is made by
+   extracted Coq definitions: Model.serve_v0 / serve_fixed / c24_ok / c24_known / ...).
+
+   client        <hex stream>            -> hex of everything the model of client.rs AS IT STANDS
+                                            (no draining of refused bodies) writes back; same line
+                                            protocol as `dwh client`
+   client_fixed  <hex stream>            -> same for the model with PROPOSED_FIX.diff applied
+   accept_c24    <hex stream> <hex out>  -> "ok|REJECT known=<0|1> frames=<n> tail=<bytes> resps=<n|unparsable>"
+                                            (spec acceptor c24_ok over an implementation's output;
+                                            known = the stream is in the class of finding D12)
+   classify_c24  <hex stream>            -> one token per complete request frame (spec framing):
+                                            Z zero length, O oversized, U invalid UTF-8,
+                                            R/P/G/S/M register/put/get/state/metrics, B bad command;
+                                            then "tail=<bytes>[!]" (! = truncated oversized frame)
+   rtok_c24      <hex topic> <hex pay>   -> 1|0|badutf8: side condition c24_rt_ok of the round trip *)
 open Model
 open Util
 
-let commands : (string * (string -> string)) list = []
+(* streams reach a few hundred kilobytes: conversions without deep recursion *)
+let hex_of_bytes (bs : n list) : string =
+  if bs = [] then "-" else begin
+    let b = Buffer.create 4096 in
+    List.iter (fun x -> Buffer.add_string b (Printf.sprintf "%02x" (int_of_n x))) bs;
+    Buffer.contents b end
+let bytes_of_hex (s : string) : n list =
+  if s = "-" then [] else begin
+    let acc = ref [] in
+    for i = String.length s / 2 - 1 downto 0 do
+      acc := n_of_int (hexval s.[2*i] * 16 + hexval s.[2*i+1]) :: !acc
+    done; !acc end
+
+let cmd_client serve line = hex_of_bytes (serve (bytes_of_hex (String.trim line)))
+
+let cmd_accept line =
+  match split_ws line with
+  | [i; o] ->
+    let inp = bytes_of_hex i in
+    let out = bytes_of_hex o in
+    let (fs, tl) = split_frames inp in
+    let resps = match split_frames out with
+      | (ofs, []) -> string_of_int (List.length ofs)
+      | _ -> "unparsable" in
+    Printf.sprintf "%s known=%d frames=%d tail=%d resps=%s"
+      (if c24_ok inp out then "ok" else "REJECT")
+      (if c24_known inp then 1 else 0) (List.length fs) (List.length tl) resps
+  | [i] when i = "panic" -> "badcase"
+  | [i; "panic"] ->
+    Printf.sprintf "REJECT known=%d frames=0 tail=0 resps=panic" (if c24_known (bytes_of_hex i) then 1 else 0)
+  | _ -> "badcase"
+
+let cmd_classify line =
+  let inp = bytes_of_hex (String.trim line) in
+  let (fs, tl) = split_frames inp in
+  let tok f = match classify_frame f with
+    | KBadLen -> if f.f_len = N0 then "Z" else "O"
+    | KBadUtf8 -> "U"
+    | KCmd (FRegister _) -> "R"
+    | KCmd (FPut (_, _)) -> "P"
+    | KCmd (FGet _) -> "G"
+    | KCmd (FState _) -> "S"
+    | KCmd FMetrics -> "M"
+    | KCmd (FBad _) -> "B" in
+  let over = match tl with
+    | b0 :: b1 :: b2 :: b3 :: _ -> N.ltb max_frame_len (un_le32 b0 b1 b2 b3)
+    | _ -> false in
+  String.concat " " (List.map tok fs @ [Printf.sprintf "tail=%d%s" (List.length tl) (if over then "!" else "")])
+
+let cmd_rtok line =
+  match split_ws line with
+  | [t; p] ->
+    (match str_of_hex t, str_of_hex p with
+     | Some t, Some p -> if c24_rt_ok t p then "1" else "0"
+     | _ -> "badutf8")
+  | _ -> "badcase"
+
+let commands : (string * (string -> string)) list = [
+  "client", cmd_client serve_v0;
+  "client_fixed", cmd_client serve_fixed;
+  "accept_c24", cmd_accept;
+  "classify_c24", cmd_classify;
+  "rtok_c24", cmd_rtok;
+]
